@@ -5,15 +5,16 @@
 // find()/contains()/erase() of the inserted key fail although insert() returned true, and iteration is out of order.
 //
 // Two threads, fixed program and schedule (unchanged /repo; HP; same traits as the iter client):
-//   prefill (main): insert 3, insert 4, erase 3, erase 4      ->  h -> n2(empty) -> n3(empty) -> t
+//   prefill (main): insert 3, insert 4, erase 3, erase 4      ->  h -> n3(empty) -> n4(empty) -> t
 //   T0: insert(1)                 T1: insert(4) insert(3) erase(4) | insert(2) erase(3)
 //   schedule "0x21 1x98 0x5 1x5000 0x5000":
-//     T0 searches: pos = (prev n3, cur t), prevVal = null                       | T1: n3 := 4, n2 := 3, n3 := empty   (ABA on n3)
-//     T0 marks t.data, n3.data, re-reads n3.next, find_prev: loads h.next = n2  | T1: insert(2) = new node n4 between h and n2; erase(3) empties n2
-//     T0 find_prev continues from n2 (empty), n3 (own mark), t: returns n3 == pos.pPrev; stores key 1 into n3
-//   result:  h -> n4(2) -> n2(empty) -> n3(1) -> t      final iteration: 2:4 1:1     contains(1)=0 contains(2)=1
+//     T0 searches: pos = (prev n4, cur t), prevVal = null                       | T1: n4 := 4, n3 := 3, n4 := empty   (ABA on n4)
+//     T0 marks t.data, n4.data, re-reads n4.next, find_prev: loads h.next = n3  | T1: insert(2) = new node n5 between h and n3; erase(3) empties n3
+//     T0 find_prev continues from n3 (empty), n4 (own mark), t: returns n4 == pos.pPrev; stores key 1 into n4
+//   result:  h -> n5(2) -> n3(empty) -> n4(1) -> t      final iteration: 2:4 1:1     contains(1)=0 contains(2)=1
 // Build: python3 -c "import sys; sys.path.insert(0,'/verif/tools'); import vlib; print(vlib.build_client('fpprobe', src='/verif/harness/probes/iterable_find_prev_race.cpp'))"
 // Run:   <exe> "0x21 1x98 0x5 1x5000 0x5000"        (trace of the named locations: iterable_find_prev_race.trace.txt)
+// The same schedule in the Lean machine: Props/C19Iterable.lean, `raceSched` (C19_sorted_keys_not_invariant, C19_iter_order_can_fail).
 #include <cds/init.h>
 #include <cds/gc/hp.h>
 #include <cds/intrusive/iterable_list_hp.h>
@@ -33,7 +34,7 @@ struct key_less {
 };
 struct flag_disposer { template <class T> void operator()( T* p ) const { p->disposed = true; } };
 
-static size_t g_node_seq = 2;
+static size_t g_node_seq = 3;      // node names as in the Lean machine: 1 = h, 2 = t, first allocated node = n3
 template <typename T>
 struct naming_alloc {
     typedef T value_type;
@@ -81,7 +82,7 @@ int main( int argc, char** argv )
         cds::threading::Manager::attachThread();
         std::string rle = argc > 1 ? argv[1] : "";
         reg_clear();
-        g_node_seq = 2;
+        g_node_seq = 3;
         list_t l;
         reg_name( &l.m_Head.next, 8, "h" ); reg_name( &l.m_Head.data, 8, "h.data" );
         reg_name( &l.m_Tail.next, 8, "t" ); reg_name( &l.m_Tail.data, 8, "t.data" );
